@@ -306,7 +306,7 @@ func (s Seg) appendTo(out []byte) []byte {
 }
 
 // Thresholds are input sizes at which the compressors change behaviour.
-var Thresholds = []int{8, 258, 4096, 8192, 8450, 16892, 16900, 32768, 65536, 65794, 131072, 131580, 131588, 196608}
+var Thresholds = []int{8, 258, 4096, 8192, 8450, 16892, 16900, 32768, 65536, 65794, 131072, 131580, 131588, 196608, 12804, 12796, 17158, 17142, 98820, 98812, 131846, 131830}
 
 var runLens = []int{1, 2, 3, 4, 8, 257, 258, 259, 516, 517, 773, 774, 775}
 var alphabets = []int{1, 2, 3, 4, 16, 64, 256}
